@@ -132,6 +132,40 @@ def postmap(ctx, prog, b):
         ws = partial_writes(b, pred)
         res['writes'] = [(i, j, algebra.canon(it), algebra.canon(v)) for i, j, it, v in ws]
         res['where'] = b.where(ws[0][0], ws[0][1]) if ws else b.where(bi)
+    # form C: for i in 0..solutions.len() { solutions[i][c] += .. }
+    if not res['writes']:
+        def unvec(t):
+            t = strip(t)
+            while isinstance(t, tuple) and t[0] == 'call' and cname(t[1]) in ('DerefMut::deref_mut', 'Deref::deref'):
+                t = strip(t[2])
+            return t
+
+        def elem(t):
+            """solutions[i] (read or write access) -> ('idx', inner, i)"""
+            def f(x):
+                if isinstance(x, tuple) and x[0] == 'call' and cname(x[1]) in ('Index::index', 'IndexMut::index_mut') and unvec(x[2]) == inner:
+                    return ('idx', inner, strip(x[3]))
+                return None
+            return subst(t, f)
+
+        def pred_c(lhs, i, j):
+            if len(lhs['proj']) == 2 and lhs['proj'][0]['k'] == 'deref':
+                e = elem(strip(b.term_local(lhs['local'], (i, j))))
+                if isinstance(e, tuple) and e[0] == 'idx' and e[1] == inner:
+                    src = util.loop_source(e[2])
+                    r = util.range_of(src) if src is not None else None
+                    if r is not None and util.const_val(r[0]) == 0 and r[2] in ([], ['into_iter']):
+                        hi = strip(r[1])
+                        whole = isinstance(hi, tuple) and hi[0] == 'call' and cname(hi[1]).split('::')[-1] == 'len' and unvec(hi[2]) == inner
+                        res['all_elements'] = whole
+                        res['adaptors'] = ['0..len' if whole else '0..' + show(hi, maxdepth=3)]
+                        res['X'] = algebra.canon(e)
+                        return True
+            return False
+        ws = partial_writes(b, pred_c)
+        res['writes'] = [(i, j, algebra.canon(elem(it)), algebra.canon(elem(v))) for i, j, it, v in ws]
+        if ws:
+            res['where'] = b.where(ws[0][0], ws[0][1])
     # the returned vector is the (updated) inner result
     rvs = [strip(x[0]) for x in b.return_values()]
     res['returns_inner'] = len(rvs) == 1 and rvs[0] == inner
